@@ -22,6 +22,10 @@ type requestStream struct {
 	chunkLeft       int
 	eof             bool
 	err             error // sticky chunked framing error
+
+	// contentLength is the content length at the time the stream was created.
+	// The framing of the body must not follow later changes of the header.
+	contentLength int
 }
 
 func (rs *requestStream) Read(p []byte) (int, error) {
@@ -29,7 +33,7 @@ func (rs *requestStream) Read(p []byte) (int, error) {
 		n   int
 		err error
 	)
-	if rs.header.ContentLength() == -1 {
+	if rs.contentLength == -1 {
 		if rs.eof {
 			return 0, io.EOF
 		}
@@ -67,7 +71,7 @@ func (rs *requestStream) Read(p []byte) (int, error) {
 		}
 		return n, err
 	}
-	if rs.totalBytesRead == rs.header.ContentLength() {
+	if rs.totalBytesRead == rs.contentLength {
 		return 0, io.EOF
 	}
 	prefetchedSize := int(rs.prefetchedBytes.Size())
@@ -78,12 +82,12 @@ func (rs *requestStream) Read(p []byte) (int, error) {
 		}
 		n, err := rs.prefetchedBytes.Read(p)
 		rs.totalBytesRead += n
-		if n == rs.header.ContentLength() {
+		if n == rs.contentLength {
 			return n, io.EOF
 		}
 		return n, err
 	}
-	left := rs.header.ContentLength() - rs.totalBytesRead
+	left := rs.contentLength - rs.totalBytesRead
 	if left > 0 && len(p) > left {
 		p = p[:left]
 	}
@@ -93,7 +97,7 @@ func (rs *requestStream) Read(p []byte) (int, error) {
 		return n, err
 	}
 
-	if rs.totalBytesRead == rs.header.ContentLength() {
+	if rs.totalBytesRead == rs.contentLength {
 		err = io.EOF
 	}
 	return n, err
@@ -101,10 +105,10 @@ func (rs *requestStream) Read(p []byte) (int, error) {
 
 // drained reports whether the whole request body has been read from rs.
 func (rs *requestStream) drained() bool {
-	if rs.header.ContentLength() == -1 {
+	if rs.contentLength == -1 {
 		return rs.eof
 	}
-	return rs.totalBytesRead == rs.header.ContentLength()
+	return rs.totalBytesRead == rs.contentLength
 }
 
 func acquireRequestStream(b *bytebufferpool.ByteBuffer, r *bufio.Reader, h bodyStreamHeader) *requestStream {
@@ -112,6 +116,7 @@ func acquireRequestStream(b *bytebufferpool.ByteBuffer, r *bufio.Reader, h bodyS
 	rs.prefetchedBytes = bytes.NewReader(b.B)
 	rs.reader = r
 	rs.header = h
+	rs.contentLength = h.ContentLength()
 	return rs
 }
 
@@ -121,6 +126,7 @@ func releaseRequestStream(rs *requestStream) {
 	rs.chunkLeft = 0
 	rs.eof = false
 	rs.err = nil
+	rs.contentLength = 0
 	rs.reader = nil
 	rs.header = nil
 	requestStreamPool.Put(rs)
